@@ -7,3 +7,4 @@ import Ymq.Props.C09
 #print axioms Ymq.C09.gcd_terminates
 #print axioms Ymq.C09.mulword_no_panic
 #print axioms Ymq.C09.no_panic_partial
+#print axioms Ymq.C09.no_panic_ext_partial
